@@ -162,17 +162,65 @@ func (c *Ctx) ruleFieldPredicates(cfg string) {
 		return
 	}
 	et := c.elementType(p)
+	// Both predicates are specified on the canonical bits can(X)_0…can(X)_254 of an operand X (the fully
+	// reduced value). An implementation may obtain them through Bytes() (bit 8i+j of byte i; bit 255 is 0) or
+	// through reduce() on a copy (bit j of limb k is can_(51k+j); both established by E8-LAYOUT / REDUCE-FORM).
 	mk := func() (*absint.BitDom, *absint.Interp, *[]string) {
 		d := absint.NewBitDom(p)
 		var encoded []string
-		d.Prims["field.(*Element).Bytes"] = func(in *absint.Interp, site ssa.Instruction, args []absint.Val) []absint.Val {
-			ptr, _ := args[0].(absint.Ptr)
-			name := "?"
-			if ptr.Obj != nil {
-				name = ptr.Obj.Name
+		nameOf := func(in *absint.Interp, site ssa.Instruction, ptr absint.Val) string {
+			// the operand must still hold the pristine limbs of one input element
+			a, _ := in.Load(site, ptr).(*absint.Agg)
+			if a == nil || len(a.Elems) != 5 {
+				in.Undecided(site, "canonical form of something that is not an Element")
 			}
+			name := ""
+			for k := 0; k < 5; k++ {
+				for j := 0; j < 64; j++ {
+					b := bitOfVal(a.Elems[k], j)
+					if len(b.Set) != 1 || b.Neg || b.Top {
+						in.Undecided(site, "canonical form of an Element that is not an unmodified input (limb %d bit %d is %v)", k, j, b)
+					}
+					var src string
+					var idx, lk int
+					if n, _ := fmt.Sscanf(strings.Replace(b.Set[0], ":", " ", 1), "%s %d", &src, &idx); n != 2 || idx != j {
+						in.Undecided(site, "canonical form of an Element whose limbs were rearranged")
+					}
+					dot := strings.LastIndex(src, ".l")
+					if dot < 0 {
+						in.Undecided(site, "canonical form of an Element whose limbs were rearranged")
+					}
+					fmt.Sscanf(src[dot+2:], "%d", &lk)
+					if lk != k || (name != "" && src[:dot] != name) {
+						in.Undecided(site, "canonical form of an Element whose limbs were rearranged")
+					}
+					name = src[:dot]
+				}
+			}
+			return name
+		}
+		d.Prims["field.(*Element).Bytes"] = func(in *absint.Interp, site ssa.Instruction, args []absint.Val) []absint.Val {
+			name := nameOf(in, site, args[0])
 			encoded = append(encoded, name)
-			return []absint.Val{bitBytes(in, "enc("+name+")", 32)}
+			s := bitBytes(in, "can("+name+")", 32)
+			top := in.SliceElems(site, s)[31].(*absint.BV)
+			top.Bits[7] = absint.Bit{Const: 0}
+			in.SetSliceElem(site, s, 31, top)
+			return []absint.Val{s}
+		}
+		d.Prims["field.(*Element).reduce"] = func(in *absint.Interp, site ssa.Instruction, args []absint.Val) []absint.Val {
+			name := nameOf(in, site, args[0])
+			encoded = append(encoded, name)
+			a := &absint.Agg{Elems: make([]absint.Val, 5)}
+			for k := 0; k < 5; k++ {
+				bv := absint.BVSym("can("+name+")", 51*k, 64)
+				for j := 51; j < 64; j++ {
+					bv.Bits[j] = absint.Bit{Const: 0}
+				}
+				a.Elems[k] = bv
+			}
+			in.Store(site, args[0], a)
+			return []absint.Val{args[0]}
 		}
 		return d, absint.New(p, d), &encoded
 	}
@@ -182,43 +230,28 @@ func (c *Ctx) ruleFieldPredicates(cfg string) {
 		o := report.Obligation{Rule: "E8-PRED", Key: "E8-PRED/" + fname, Config: cfg}
 		if f := c.anchor(p, fname); f != nil {
 			o.Pos = p.Rel(f.Pos())
-			d, in, _ := mk()
-			var cmpArgs [][]absint.Val
-			d.Prims["crypto/subtle.ConstantTimeCompare"] = func(in *absint.Interp, site ssa.Instruction, args []absint.Val) []absint.Val {
-				cmpArgs = append(cmpArgs, []absint.Val{args[0], args[1]})
-				return []absint.Val{absint.BVSym("ctcompare", 0, 1)}
-			}
+			_, in, _ := mk()
 			v, u := c.bitElem(in, et, "v", 64), c.bitElem(in, et, "u", 64)
 			out := in.Run(f, []absint.Val{v, u})
-			switch {
-			case out.Kind != absint.ExitReturn:
+			if out.Kind != absint.ExitReturn {
 				o.Detail = out.Undecided + out.PanicMsg
-			case len(cmpArgs) != 1:
-				o.Detail = fmt.Sprintf("%d calls of subtle.ConstantTimeCompare, expected 1", len(cmpArgs))
-			default:
-				whole := func(s absint.Val, name string) bool {
-					el := in.SliceElems(nil, s)
-					if len(el) != 32 {
-						return false
-					}
-					for i, e := range el {
-						for j := 0; j < 8; j++ {
-							if !bitOfVal(e, j).Equal(symBit("enc("+name+")", 8*i+j)) {
-								return false
-							}
-						}
-					}
-					return true
+			} else {
+				var want []string
+				for k := 0; k < 255; k++ {
+					want = append(want, absint.XorAtom(fmt.Sprintf("can(u):%d", k), fmt.Sprintf("can(v):%d", k)))
 				}
-				a, b := cmpArgs[0][0], cmpArgs[0][1]
-				o.OK = (whole(a, "u") && whole(b, "v")) || (whole(a, "v") && whole(b, "u"))
-				res, _ := out.Results[0].(*absint.BV)
-				if res == nil || !res.Bits[0].Equal(symBit("ctcompare", 0)) {
-					o.OK = false
+				sort.Strings(want)
+				spec := absint.Bit{Const: -1, Neg: true, Set: want}
+				o.OK = bitOfVal(out.Results[0], 0).Equal(spec)
+				for j := 1; j < 64; j++ {
+					if !bitOfVal(out.Results[0], j).Equal(absint.Bit{Const: 0}) {
+						o.OK = false
+					}
 				}
-				o.Detail = "Equal(v,u) = ConstantTimeCompare(enc(u)[0:32], enc(v)[0:32]) over the whole canonical encodings; limbs are read only through Bytes()"
+				o.Detail = "Equal(v,u) = ¬OR_{k<255}(can(v)_k ⊕ can(u)_k): 1 exactly when all 255 bits of the two fully reduced values agree (obtained through Bytes() or reduce(); every comparison primitive is interpreted bit for bit), all other result bits 0"
 				if !o.OK {
-					o.Detail = "Equal does not compare the complete 32-byte canonical encodings of both operands (a truncated or limb-level comparison distinguishes representations or misses high bits)"
+					got := bitOfVal(out.Results[0], 0)
+					o.Detail = fmt.Sprintf("Equal is not the comparison of all 255 canonical bits of both operands (bit 0 of the result is %v over %d difference atoms): a truncated or representation-level comparison distinguishes representations of one value or misses differing bits", got.Neg, len(got.Set))
 				}
 			}
 		}
@@ -236,13 +269,13 @@ func (c *Ctx) ruleFieldPredicates(cfg string) {
 			if out.Kind != absint.ExitReturn {
 				o.Detail = out.Undecided + out.PanicMsg
 			} else {
-				o.OK = bitOfVal(out.Results[0], 0).Equal(symBit("enc(v)", 0))
+				o.OK = bitOfVal(out.Results[0], 0).Equal(symBit("can(v)", 0))
 				for j := 1; j < 64; j++ {
 					if !bitOfVal(out.Results[0], j).Equal(absint.Bit{Const: 0}) {
 						o.OK = false
 					}
 				}
-				o.Detail = "IsNegative(v) = bit 0 of the canonical encoding enc(v) (the fully reduced value), all other result bits 0"
+				o.Detail = "IsNegative(v) = can(v)_0, bit 0 of the fully reduced value (read from Bytes() or from reduce() on a copy), all other result bits 0"
 				if !o.OK {
 					o.Detail = fmt.Sprintf("IsNegative is %v, not bit 0 of the canonical encoding: it would differ between representations of the same value", out.Results[0])
 				}
